@@ -13,11 +13,25 @@ Sandbox (the model calls the root `/S`):
   /S/outside/{victim.txt, dir/keep.txt}           must never change
   /S/instance/data/…                               archives and copy/link sources
   /S/instance/stages/stage0/comp                   working directory of the component (extract/copy/link target)
+  /S/instance/stages/stage0/producer/out.txt       working directory of a producer component (link-staged input)
   /S/pkg/{wf.yaml, src1/f, src2/f, file.txt}       package + manifest sources (must never change)
   /S/inst/new.instance                             instance directory (deployment target)
 The real root is 9 directories below the mkdtemp so that even the escapes of the committed code stay inside it;
-additionally every generated case is first run through the model of the *committed* algorithm and dropped when
-its write log leaves /S.
+additionally every generated case is first run through the model of *unchecked* extraction (the committed
+algorithm; the driver goes on after members that fail, `looseExtract`) and dropped when its write log leaves /S.
+
+Oracle slugs: `extract-writes-outside-working-directory`, `deploy-writes-outside-instance-directory`,
+`<op>-raises-<Exc>-instead-of-staging-or-packaging-error`, and `extract-writes-through-staged-link` (archive that
+obeys the documented rule, every outside change under the target of a link that link-staging of another input
+left in the working directory — known finding C18-extract-through-staged-link, classifier
+`c18_extract_through_staged_link`).
+
+Families the extract generator covers (tags `class:…`, `family:…` in the evidence): benign, 11 single-idea
+escape templates, random mixes, and link chains (`gen_chain`): links placed through earlier links, hard links to
+earlier links, targets through earlier links — the archives on which a check that judges every member on its
+own text (e.g. normpath of the link target) is unsound, see Witness/C18.lean `normpath_link_rule_unsound_*`.
+`family:textually-confined-link-chain-escapes` counts the generated archives that such a check would accept
+(model: `checkNormpath`) and that leave the working directory when extracted unchecked.
 """
 from __future__ import annotations
 
@@ -35,6 +49,7 @@ from harness import common
 PAD = "p1/p2/p3/p4/p5/p6/p7/p8/R"
 WD = "instance/stages/stage0/comp"
 INST = "inst/new.instance"
+PRODUCER = "instance/stages/stage0/producer"
 NAMES = ["a", "b", "c", "d", "keep.txt", "sub", "x.txt", "l"]
 
 
@@ -87,10 +102,10 @@ class Sandbox:
         if os.path.lexists(os.path.join(self.base, "p1")):
             shutil.rmtree(os.path.join(self.base, "p1"))
         r = self.root
-        for d in ("outside/dir", "instance/data/d1", WD, "pkg/src1", "pkg/src2", INST):
+        for d in ("outside/dir", "instance/data/d1", PRODUCER, WD, "pkg/src1", "pkg/src2", INST):
             os.makedirs(os.path.join(r, d))
         for f, c in (("outside/victim.txt", "victim"), ("outside/dir/keep.txt", "keep"), ("instance/data/f1.txt", "f1"),
-                     ("instance/data/d1/f", "d1f"), ("pkg/src1/f", "s1"), ("pkg/src2/f", "s2"),
+                     ("instance/data/d1/f", "d1f"), (PRODUCER + "/out.txt", "out"), ("pkg/src1/f", "s1"), ("pkg/src2/f", "s2"),
                      ("pkg/file.txt", "pf"),
                      ("pkg/wf.yaml", "components:\n- name: c\n  command:\n    executable: ls\n")):
             with open(os.path.join(r, f), "w") as fh:
@@ -105,7 +120,7 @@ class Sandbox:
                     fh.write("pre")
             else:
                 os.makedirs(os.path.dirname(p), exist_ok=True)
-                os.symlink(tgt, p)
+                os.symlink(self.real(tgt), p)
 
     def real(self, s):
         """model path (/S/…) or $R-prefixed text -> real text"""
@@ -197,10 +212,21 @@ def classify_stage_exc(exc):
     return "other:" + type(exc).__name__
 
 
+def prepare(sb, case):
+    """initial state of a staging case: the sandbox, the pre-existing entries of the working directory and, for
+    `staged`, the inputs of the SAME component that were staged before the archive — done by the real
+    StageReference (`data/d1:link` leaves the absolute link WD/d1 -> <instance>/data/d1, `:copy` a copy)."""
+    M = _imports()
+    sb.reset(case.get("pre", ()))
+    for ref in case.get("staged", ()):
+        M["D"].StageReference(M["G"].DataReference(ref), M["ST"].WorkingDirectory(os.path.join(sb.root, WD)),
+                              _Graph(os.path.join(sb.root, "instance")))
+
+
 def impl_stage(sb, case):
     """runs the real StageReference; returns (result, before, after)"""
     M = _imports()
-    sb.reset(case.get("pre", ()))
+    prepare(sb, case)
     r = sb.root
     if case["op"] == "extract":
         make_tar(os.path.join(r, "instance/data/a.tar"), case["members"], sb)
@@ -289,7 +315,10 @@ def model_request(case, fs, fixed=True):
 
 
 def initial_fs(sb, case):
-    sb.reset(case.get("pre", ()))
+    if case["op"] == "deploy":
+        sb.reset(())
+    else:
+        prepare(sb, case)
     if case["op"] == "extract":
         with open(os.path.join(sb.root, "instance/data/a.tar"), "w") as fh:
             fh.write("")
@@ -380,11 +409,163 @@ def gen_hostile(rng):
     return t, pre + ms + post, planted
 
 
+def _norm_rel(parts):
+    """textual normal form of a relative component list; `..` survives only in front"""
+    out = []
+    for q in parts:
+        if q in ("", "."):
+            continue
+        if q == ".." and out and out[-1] != "..":
+            out.pop()
+        else:
+            out.append(q)
+    return out
+
+
+CH_DIRS = ["a", "b", "c", "d", "sub"]
+CH_LINKS = ["s", "t", "esc", "l", "u"]
+
+
+def gen_chain(rng):
+    """link chains of depth 2-4: every link member after the first is placed THROUGH an earlier link member
+    (the directory part of its name continues the name of an earlier link), or is a hard link to an earlier link
+    (a second name of that link in another directory), or has a target that passes through an earlier link.
+    No member name has a parent segment or is absolute and no link target is absolute.  Styles:
+      confined   - every target has parent segments but is textually confined (normpath against the directory
+                   of the name / the archive root stays under the destination)
+      mid        - as confined, the parent segments come after a leading name (`d/../..`)
+      overshoot  - one target leaves the destination already textually
+      descending - no parent segment at all (accepted by the check; exercised through the links)
+      mixed      - a random mix
+    then files / directories / links beneath the last link.  `real` tracks, relative to the working directory,
+    where the kernel puts things (leading `..` = outside): planted = the payload certainly lands outside when
+    the archive is extracted unchecked."""
+    depth = rng.randint(2, 4)
+    style = rng.choice(["confined", "confined", "confined", "mid", "overshoot", "descending", "descending", "mixed"])
+    k = rng.randint(1, 3)
+    base = [rng.choice(CH_DIRS) for _ in range(k)]
+    ms = []
+    r = rng.random()
+    if r < 0.35:
+        ms.append(["dir", "/".join(base) + rng.choice(["", "/"]), ""])
+    elif r < 0.5:
+        ms.append(["file", "/".join(base + ["f0"]), ""])
+    dirs_made = ["/".join(base[:i]) for i in range(1, k + 1)]
+    cur = list(base)           # textual directory of the next link
+    real = list(base)          # where that directory really is, relative to the working directory
+    links = []                 # (textual name, real directory holding it, link text components)
+    used = set()
+    overshoot_at = rng.randrange(depth) if style == "overshoot" else -1
+    replaced_dir = False
+    for i in range(depth):
+        n = rng.choice([x for x in CH_LINKS if x not in used] or CH_LINKS)
+        used.add(n)
+        st = style if style != "mixed" else rng.choice(["confined", "confined", "descending"])
+        midp = 0.2
+        if st == "mid":
+            st, midp = "confined", 0.9
+        kind = "sym"
+        q = rng.random()
+        if links and q < 0.2:
+            kind = "hard"            # second name for an earlier link, in the directory reached so far
+        elif links and q < 0.35 and st != "descending":
+            kind = "via"             # symlink whose target goes through an earlier link and then up
+        if i == 0 and rng.random() < 0.08 and len(cur) >= 1 and not replaced_dir:
+            # directory replaced by a link: the link takes the name of a directory extracted just before
+            ms.append(["dir", "/".join(cur + [n]), ""])
+            if rng.random() < 0.5:
+                ms.append(["file", "/".join(cur + [n, "in.txt"]), ""])
+            replaced_dir = True
+        if kind == "hard":
+            lname, ldir, ltext = rng.choice(links)
+            # sometimes at the archive root, so that the copied text means something else there
+            if len(cur) > 1 and rng.random() < 0.5:
+                cur, real = [], []
+            ms.append(["hard", "/".join(cur + [n]), lname])
+            text = ltext
+        elif kind == "via":
+            # placed at the archive root; target = an earlier link (by its textual name) followed by `..`:
+            # textually that is the directory holding the earlier link or its parent, really it is above
+            # whatever the earlier link points to
+            lname, ldir, ltext = rng.choice(links)
+            ups = rng.randint(1, 2)
+            text = lname.split("/") + [".."] * ups
+            cur, real = [], []
+            ms.append(["sym", n, "/".join(text)])
+            links.append((n, [], text))
+            cur = [n]
+            real = _norm_rel(_norm_rel(ldir + ltext) + [".."] * ups)
+            continue
+        else:
+            if st == "descending":
+                text = [rng.choice(CH_DIRS) for _ in range(rng.choice([1, 1, 2]))]
+                if rng.random() < 0.3 and dirs_made and not real:
+                    text = rng.choice(dirs_made).split("/")
+                elif rng.random() < 0.7:
+                    # make the target exist (created through the links so far)
+                    ms.append(["dir", "/".join(cur + text), ""])
+            else:
+                room = len(cur)                      # textual depth of the directory holding the link
+                if i == overshoot_at or room == 0:
+                    u = room + rng.randint(1, 2)
+                else:
+                    u = rng.randint(1, min(room, 2))
+                text = [".."] * u
+                q2 = rng.random()
+                if q2 < midp:
+                    # parent segments in the middle of the text: first down into a directory that exists
+                    # (created just before, through the links so far), then up past where the link is
+                    down = rng.choice(CH_DIRS)
+                    ms.append(["dir", "/".join(cur + [down]), ""])
+                    text = [down, ".."] + text
+                elif q2 < midp + 0.3:
+                    text = text + [rng.choice(CH_DIRS)]
+            ms.append(["sym", "/".join(cur + [n]), "/".join(text)])
+        links.append(("/".join(cur + [n]), list(real), text))
+        real = _norm_rel(real + text)
+        cur = cur + [n]
+        # now and then continue through names that really exist where the link leads
+        if real and real[0] != ".." and rng.random() < 0.25 and "/".join(real) in dirs_made and len(real) < k:
+            nxt = base[len(real)]
+            cur, real = cur + [nxt], real + [nxt]
+    # payload beneath the last link
+    outside = bool(real) and real[0] == ".."
+    pay = rng.choice(["file", "file", "file-deep", "dir", "sym", "dir+file", "hard"])
+    leaf = rng.choice(["PWNED", "escaped.txt", "x.txt", "keep.txt"])
+    if pay == "file":
+        ms.append(["file", "/".join(cur + [leaf]), ""])
+    elif pay == "file-deep":
+        ms.append(["file", "/".join(cur + ["e", leaf]), ""])
+    elif pay == "dir":
+        ms.append(["dir", "/".join(cur + ["newdir"]), ""])
+    elif pay == "sym":
+        ms.append(["sym", "/".join(cur + ["nl"]), rng.choice(["x", "a/b", "keep.txt"])])
+    elif pay == "dir+file":
+        ms.append(["dir", "/".join(cur + ["newdir"]), ""])
+        ms.append(["file", "/".join(cur + ["newdir", leaf]), ""])
+    else:
+        ms.append(["file", "top.txt", ""])
+        ms.append(["hard", "/".join(cur + ["hl"]), "top.txt"])
+    pre = gen_benign_members(rng, rng.randint(0, 2)) if rng.random() < 0.4 else []
+    post = gen_benign_members(rng, rng.randint(0, 2)) if rng.random() < 0.3 else []
+
+    def top(name):
+        name = name.replace("$R/" + WD + "/", "")
+        return [q for q in name.split("/") if q not in ("", ".")][:1]
+    pre = [m for m in pre if top(m[1]) and top(m[1])[0] not in (base[0], "top.txt") + tuple(CH_LINKS)]
+    planted = outside and not replaced_dir
+    return style + ":d%d" % depth, pre + ms + post, planted
+
+
 def gen_random_members(rng, n):
     ms = []
+    linknames = []
     for _ in range(n):
         k = rng.choice(["file", "file", "dir", "sym", "hard"])
         name = gen_name(rng)
+        if linknames and rng.random() < 0.3:
+            # placed through an earlier link member
+            name = rng.choice(linknames) + "/" + gen_name(rng, rng.choice([1, 1, 2]))
         if rng.random() < 0.25:
             parts = name.split("/")
             parts.insert(rng.randint(0, len(parts)), "..")
@@ -397,6 +578,13 @@ def gen_random_members(rng, n):
                 tgt = "../" * rng.randint(1, 2) + tgt
             elif r < 0.4:
                 tgt = "$R/" + rng.choice(["outside", "outside/dir", WD, WD + "/sub"])
+            elif r < 0.5:
+                tgt = "../" * rng.randint(1, 2)
+                tgt = tgt.rstrip("/")
+            elif r < 0.6 and linknames:
+                tgt = rng.choice(linknames) + rng.choice(["", "/..", "/" + rng.choice(NAMES)])
+            if ".." not in name.split("/"):
+                linknames.append(name)
         ms.append([k, decorate(rng, name), tgt])
     return ms
 
@@ -412,16 +600,92 @@ def gen_pre(rng):
     return pre
 
 
+STAGED_CHOICES = [
+    # (how the input of the same component was staged, name it has in the working directory, is it a link)
+    ("ref", "data/d1:link", "d1", True),
+    ("ref", "data/d1:link", "d1", True),
+    ("ref", "data/f1.txt:link", "f1.txt", True),
+    ("ref", "data/d1:copy", "d1", False),
+    ("ref", "data/f1.txt:copy", "f1.txt", False),
+    # what link staging of a producer reference (`stage0.producer:link`) leaves: WD/producer -> <its directory>
+    ("pre", ("link", WD + "/producer", "$R/" + PRODUCER), "producer", True),
+]
+
+
+def gen_staged(rng):
+    """inputs of the same component staged before the archive -> (pre entries, staged refs, names in WD)"""
+    pre, staged, names = [], [], []
+    for how, what, name, _is_link in rng.sample(STAGED_CHOICES, rng.choice([1, 1, 2])):
+        if name in names:
+            continue
+        names.append(name)
+        if how == "ref":
+            staged.append(what)
+        else:
+            pre.append(what)
+    return pre, staged, names
+
+
+def gen_staged_members(rng, names):
+    """archive members beneath / through / onto the names that the earlier staging created"""
+    ms = []
+    for _ in range(rng.randint(1, 3)):
+        n = rng.choice(names)
+        leaf = rng.choice(["evil", "f", "x.txt", "out.txt", "sub/x.txt", "newdir/deep/x.txt"])
+        t = rng.choice(["file", "file", "file", "dir", "sym", "hard", "onto", "dir-onto", "via-sym", "via-hard"])
+        if t == "file":
+            ms.append(["file", decorate(rng, n + "/" + leaf), ""])
+        elif t == "dir":
+            ms.append(["dir", n + "/" + rng.choice(["newdir", "sub", "newdir/deep"]), ""])
+        elif t == "sym":
+            ms.append(["sym", n + "/" + rng.choice(["nl", "f"]), rng.choice(["x", "f", "a/b"])])
+        elif t == "hard":
+            ms.append(["file", "top.txt", ""])
+            ms.append(["hard", n + "/hl", "top.txt"])
+        elif t == "onto":
+            ms.append(["file", n, ""])                       # a file member with the very name
+        elif t == "dir-onto":
+            ms.append(["dir", n + rng.choice(["", "/"]), ""])  # a directory member with the very name
+            if rng.random() < 0.5:
+                ms.append(["file", n + "/" + leaf, ""])
+        elif t == "via-sym":
+            ms.append(["sym", "x", n])                       # a descending archive link to the staged name
+            ms.append(["file", "x/" + leaf, ""])
+        else:
+            ms.append(["hard", "h2", n + "/" + rng.choice(["f", "out.txt"])])   # second name of a staged file
+            ms.append(["file", "h2", ""])
+    return ms
+
+
 def gen_extract_case(rng):
     r = rng.random()
-    if r < 0.4:
+    if r < 0.3:
         ms = gen_benign_members(rng, rng.randint(1, 7))
-        return {"op": "extract", "class": "benign", "members": ms, "planted": False, "pre": gen_pre(rng)}
-    if r < 0.75:
+        case = {"op": "extract", "class": "benign", "members": ms, "planted": False, "pre": gen_pre(rng)}
+    elif r < 0.55:
         t, ms, planted = gen_hostile(rng)
-        return {"op": "extract", "class": "hostile:" + t, "members": ms, "planted": planted, "pre": gen_pre(rng)}
-    ms = gen_random_members(rng, rng.randint(1, 6))
-    return {"op": "extract", "class": "random", "members": ms, "planted": False, "pre": gen_pre(rng)}
+        case = {"op": "extract", "class": "hostile:" + t, "members": ms, "planted": planted, "pre": gen_pre(rng)}
+    elif r < 0.82:
+        t, ms, planted = gen_chain(rng)
+        case = {"op": "extract", "class": "chain:" + t, "members": ms, "planted": planted, "pre": gen_pre(rng)}
+    else:
+        ms = gen_random_members(rng, rng.randint(1, 6))
+        case = {"op": "extract", "class": "random", "members": ms, "planted": False, "pre": gen_pre(rng)}
+    if rng.random() < 0.22:
+        # the working directory already holds other inputs of the same component (Job.stageIn stages every
+        # reference of the component into the same directory, one after the other)
+        pre, staged, names = gen_staged(rng)
+        case["pre"] = case["pre"] + pre
+        case["staged"] = staged
+        if rng.random() < 0.75:
+            extra = gen_staged_members(rng, names)
+            at = rng.randint(0, len(case["members"])) if case["class"] != "benign" else len(case["members"])
+            if rng.random() < 0.4:
+                case["members"] = extra                      # nothing but members aimed at the staged names
+            else:
+                case["members"] = case["members"][:at] + extra + case["members"][at:]
+        case["class"] = "staged+" + case["class"]
+    return case
 
 
 KEYS = ["a", "b", "data", "conf", "x"]
@@ -510,6 +774,14 @@ CORPUS = [
     {"op": "extract", "class": "corpus:C18b' hardlink+file", "members": [["hard", "h", UP6 + "outside/victim.txt"], ["file", "h", ""]], "planted": True, "pre": []},
     {"op": "extract", "class": "corpus:shallow link + ..", "members": [["dir", "a/b", ""], ["sym", "a/b/c", "../.."], ["file", "a/b/c/../escaped.txt", ""]], "planted": True, "pre": []},
     {"op": "extract", "class": "corpus:benign", "members": [["dir", "d", ""], ["file", "d/x", ""], ["sym", "l", "d"], ["file", "l/y", ""], ["hard", "h", "d/x"], ["file", "h", ""]], "planted": False, "pre": []},
+    {"op": "extract", "class": "corpus:chain link placed through a link", "members": [["sym", "a/s", ".."], ["sym", "a/s/esc", ".."], ["file", "a/s/esc/PWNED", ""]], "planted": True, "pre": []},
+    {"op": "extract", "class": "corpus:chain depth 3", "members": [["sym", "a/b/s", ".."], ["sym", "a/b/s/t", ".."], ["sym", "a/b/s/t/u", ".."], ["file", "a/b/s/t/u/PWNED", ""]], "planted": True, "pre": []},
+    {"op": "extract", "class": "corpus:chain hard link to a link", "members": [["dir", "a/b", ""], ["sym", "a/b/s", "../.."], ["hard", "h", "a/b/s"], ["file", "h/PWNED", ""]], "planted": True, "pre": []},
+    {"op": "extract", "class": "corpus:chain target through a link", "members": [["sym", "a/s", ".."], ["sym", "m", "a/s/.."], ["file", "m/PWNED", ""]], "planted": True, "pre": []},
+    {"op": "extract", "class": "corpus:chain descending", "members": [["dir", "d/e", ""], ["sym", "l", "d"], ["sym", "l/m", "e"], ["file", "l/m/y", ""], ["hard", "h", "l/m"], ["file", "h/z", ""]], "planted": False, "pre": []},
+    {"op": "extract", "class": "corpus:member beneath a link-staged input", "members": [["file", "d1/evil", ""]], "planted": False, "pre": [], "staged": ["data/d1:link"]},
+    {"op": "extract", "class": "corpus:member beneath a copy-staged input", "members": [["file", "d1/evil", ""]], "planted": False, "pre": [], "staged": ["data/d1:copy"]},
+    {"op": "extract", "class": "corpus:member through archive link and link-staged producer", "members": [["sym", "x", "producer"], ["file", "x/evil", ""]], "planted": False, "pre": [["link", WD + "/producer", "$R/" + PRODUCER]]},
     {"op": "deploy", "class": "corpus:C18c ../x", "entries": [["../x", "src1"]], "validate": True},
     {"op": "deploy", "class": "corpus:C18d nested under link", "entries": [["a", "src1:link"], ["a/b", "src2:copy"]], "validate": True},
     {"op": "deploy", "class": "corpus:C18e conf link", "entries": [["conf", "src1:link"]], "validate": True},
@@ -540,24 +812,37 @@ def run_cases(ctx, sb, cases):
         outs = iter(ctx.model(reqs))
         old = [next(outs) if c["op"] != "stage" else None for c in cases]
     for i, case in enumerate(cases):
+        family = []
         if old is not None and old[i] is not None:
             if any(not (p == "/S" or p.startswith("/S/")) for p in old[i]["log"]):
                 ctx.tag("dropped:would-leave-sandbox")
                 continue
+            if case["op"] == "extract":
+                wd = "/S/" + WD
+                leaves = any(not (p == wd or p.startswith(wd + "/")) for p in old[i]["log"])
+                if leaves and old[i].get("normpathOk"):
+                    # no `..`/absolute name, every link target textually confined, and yet unchecked extraction
+                    # leaves the working directory: only links created by earlier members can do that
+                    family.append("family:textually-confined-link-chain-escapes")
+                elif leaves:
+                    family.append("family:escapes-when-unchecked")
+                if through_link_members(case):
+                    family.append("family:member-placed-through-link-member")
         if case["op"] == "deploy":
             res, before, after = impl_deploy(sb, case)
         else:
             res, before, after = impl_stage(sb, case)
         bad = changed_outside(before, after, inside_rel(case))
         nontrivial = (len(case.get("members", case.get("entries", [1]))) >= 1) and (res != "missing")
-        tags = ["op:" + case["op"], "class:" + case["class"].split(" ")[0], "impl:" + res]
+        tags = ["op:" + case["op"], "class:" + case["class"].split(" ")[0], "impl:" + res] + family
         if after != before:
             tags.append("effect:changed-something")
         ctx.case(strip_case(case), nontrivial=nontrivial, tags=tags)
         # oracle (model independent): nothing outside the target changes; planted escapes are rejected
         if bad:
-            ctx.fail(case["op"] + "-writes-outside-" + ("instance-directory" if case["op"] == "deploy" else "working-directory"),
-                     strip_case(case), {"result": res, "changed_outside": bad[:6]})
+            ctx.fail(escape_slug(case, bad), strip_case(case),
+                     {"result": res, "changed_outside": bad[:6], "outside_paths": [b[0] for b in bad[:80]],
+                      "outside_paths_truncated": len(bad) > 80})
         elif res.startswith("other:") and (case.get("planted") or case["op"] == "deploy"):
             ctx.fail(case["op"] + "-raises-" + res.split(":", 1)[1] + "-instead-of-staging-or-packaging-error",
                      strip_case(case), {"result": res})
@@ -578,6 +863,22 @@ def run_cases(ctx, sb, cases):
             ctx.compare("changed entries ⊆ model log", strip_case(case), {"unlogged": []}, {"unlogged": missing})
 
 
+def _member_key(n):
+    return "/".join(_norm_rel(n.replace("$R/" + WD + "/", "").split("/")))
+
+
+def through_link_members(case):
+    """number of members whose name continues the name of an earlier symlink/hardlink member"""
+    links, cnt = [], 0
+    for k, n, _t in case.get("members", ()):
+        key = _member_key(n)
+        if any(key.startswith(l + "/") for l in links):
+            cnt += 1
+        if k in ("sym", "hard") and key:
+            links.append(key)
+    return cnt
+
+
 def hard_target_is_earlier_member(case):
     """a hard link member whose target is not on disk but names an earlier member: tarfile extracts a copy of
     that member instead (TarFile._find_link_target), which the model does not describe"""
@@ -589,11 +890,103 @@ def hard_target_is_earlier_member(case):
     return False
 
 
-def shrinker_factory(sb):
+SLUG_STAGED = "extract-writes-through-staged-link"
+
+
+def staged_links(case):
+    """name in the working directory -> sandbox-relative location it points to, for the links that link staging
+    of another input of the same component created BEFORE the archive is extracted"""
+    out = {}
+    for ref in case.get("staged", ()):
+        path, _, meth = ref.rpartition(":")
+        if meth == "link" and path and not path.endswith("/"):
+            out[os.path.basename(path)] = "instance/" + path
+    for kind, rel, tgt in case.get("pre", ()):
+        if kind == "link" and tgt.startswith("$R/") and rel.startswith(WD + "/") and "/" not in rel[len(WD) + 1:]:
+            out[rel[len(WD) + 1:]] = tgt[3:]
+    return out
+
+
+def archive_is_textually_confined(case):
+    """the acceptance rule the code documents, restated on the text of the archive: every member name is
+    relative (or absolute under the working directory) without parent segment, every symlink/hardlink target is
+    relative without parent segment"""
+    for k, n, t in case.get("members", ()):
+        if n.startswith("$R/" + WD + "/"):
+            n = n[len("$R/" + WD + "/"):]
+        if n.startswith(("/", "$R")) or ".." in n.split("/"):
+            return False
+        if k in ("sym", "hard") and (t.startswith(("/", "$R")) or ".." in t.split("/")):
+            return False
+    return True
+
+
+def all_under_staged_link_targets(case, paths):
+    tg = list(staged_links(case).values())
+    return bool(tg) and all(any(p == t or p.startswith(t + "/") for t in tg) for p in paths)
+
+
+def escape_slug(case, bad):
+    if case["op"] == "deploy":
+        return "deploy-writes-outside-instance-directory"
+    if (case["op"] == "extract" and archive_is_textually_confined(case)
+            and all_under_staged_link_targets(case, [b[0] for b in bad])):
+        return SLUG_STAGED
+    return case["op"] + "-writes-outside-working-directory"
+
+
+def without_staged_links(case):
+    """the same case with every link-staged input replaced by a copy of what it points to"""
+    c2 = dict(case)
+    c2["staged"] = [r[:-len(":link")] + ":copy" if r.endswith(":link") else r for r in case.get("staged", ())]
+    pre = []
+    for kind, rel, tgt in case.get("pre", ()):
+        if kind == "link" and tgt.startswith("$R/"):
+            pre.append(["dir", rel, ""])
+            pre.append(["file", rel + "/out.txt", ""])
+        else:
+            pre.append([kind, rel, tgt])
+    c2["pre"] = pre
+    return c2
+
+
+def c18_extract_through_staged_link(what, case, detail):
+    """KNOWN finding C18-extract-through-staged-link, and nothing else: an archive that obeys the documented rule
+    (no parent segment / absolute path in any member name or link target) is extracted into a working directory
+    that already holds an absolute link made by link-staging another input of the same component; everything that
+    changed outside the working directory lies at or below the target of such a link; and the very same archive
+    changes nothing outside once those links are replaced by copies (re-run on the real code).  A failure that
+    involves an archive link with a parent segment / absolute target, a member name with a parent segment, or a
+    path elsewhere is not accepted."""
+    if what != SLUG_STAGED or case.get("op") != "extract" or not detail:
+        return False
+    paths = detail.get("outside_paths")
+    if not paths or detail.get("outside_paths_truncated"):
+        return False
+    if not archive_is_textually_confined(case) or not all_under_staged_link_targets(case, paths):
+        return False
+    base = tempfile.mkdtemp(prefix="c18-cls-")
+    try:
+        sb = Sandbox(base)
+        _res, b, a = impl_stage(sb, case)
+        if not changed_outside(b, a, WD):
+            return False                                  # not reproducible: do not accept
+        _res, b, a = impl_stage(sb, without_staged_links(case))
+        return not changed_outside(b, a, WD)
+    except Exception:  # noqa
+        return False
+    finally:
+        shutil.rmtree(base, ignore_errors=True)
+
+
+def shrinker_factory(_sb=None):
+    """the shrinker runs from finish(), after run() has removed its scratch tree: it uses (and removes) its own"""
     def shrink(what, case):
         key = "members" if case["op"] == "extract" else ("entries" if case["op"] == "deploy" else None)
-        if key is None:
+        if key is None or "-writes-" not in what:
             return case
+        base = tempfile.mkdtemp(prefix="c18-shrink-")
+        sb = Sandbox(base)
 
         def still(items):
             if not items:
@@ -604,25 +997,37 @@ def shrinker_factory(sb):
                 _res, b, a = impl_deploy(sb, c2)
             else:
                 _res, b, a = impl_stage(sb, c2)
-            return bool(changed_outside(b, a, inside_rel(case)))
-        if "writes-outside" not in what:
-            return case
-        c3 = dict(case)
-        c3[key] = common.shrink_list(case[key], still, max_steps=60)
-        c3["pre"] = case.get("pre", [])
-        return c3
+            bad = changed_outside(b, a, inside_rel(case))
+            return bool(bad) and escape_slug(c2, bad) == what
+        try:
+            c3 = dict(case)
+            c3[key] = common.shrink_list(case[key], still, max_steps=60)
+            c3["pre"] = case.get("pre", [])
+            return c3
+        finally:
+            shutil.rmtree(base, ignore_errors=True)
     return shrink
 
 
-CLASSIFIERS = {}
+CLASSIFIERS = {"c18_extract_through_staged_link": c18_extract_through_staged_link}
 
 
 def run(ctx):
-    ctx.rule = ("cases = (a) tar archives of 1-12 members (file/dir/symlink/hardlink; names with parent segments at any "
+    ctx.rule = ("cases = (a) tar archives of 1-20 members (file/dir/symlink/hardlink; names with parent segments at any "
                 "position, absolute names under and outside the working directory, ./ and // spellings; link targets "
                 "relative, with parent segments, absolute; 11 escape templates incl. link chains, hard link to a file "
-                "outside, link to the working directory itself followed by ..; benign descending archives; random mixes) "
-                "extracted by the real StageReference into a working directory with optional existing content; "
+                "outside, link to the working directory itself followed by ..; link chains of depth 2-4 in which every "
+                "later link member is placed THROUGH an earlier link member (its name continues the earlier link's "
+                "name), is a hard link to an earlier link member (second name in another directory) or has a target "
+                "passing through an earlier link, with targets that have parent segments but are textually confined "
+                "(leading, or after a leading name), overshoot, or are descending, a directory member replaced by a "
+                "link member, then file/dir/symlink/hardlink members beneath the last link; benign descending "
+                "archives; random mixes incl. names through earlier link members) "
+                "extracted by the real StageReference into a working directory with optional existing content; about "
+                "a fifth of the archives are extracted into a working directory that already holds other inputs of the "
+                "same component staged by the real StageReference (data/d1:link, data/f1.txt:link, :copy of both, the "
+                "link to a producer directory) and get members beneath / onto / through those names (files, dirs, "
+                "symlinks, hardlinks, descending archive links to them, hardlinks to files behind them); "
                 "(b) manifests of 1-4 entries (keys nested / with .. / absolute / ./ and //; copy and link methods; "
                 "directory, file and missing sources; keys nested under linked keys; conf linked) loaded with the real "
                 "Manifest.validate (or not) and deployed by the real expandPackageToDirectory; (c) copy/copyout/link "
@@ -631,9 +1036,14 @@ def run(ctx):
                 "full recursive listing (kind, link text, size, sha1, mtime, mode) of the sandbox before/after.")
     ctx.assumptions = [
         "sandbox paths are real (no symlinked /tmp): location.path == realpath(location.path)",
+        "known finding C18-extract-through-staged-link: writes through an absolute link that link-staging of another "
+        "input of the same component left in the working directory are accepted by the classifier only when the "
+        "archive has no parent segment / absolute path in any name or link target, every changed outside path lies "
+        "under such a link's target, and the same archive changes nothing outside once the links are replaced by "
+        "copies (re-run on the real code)",
         "hard link members name only earlier regular-file members or names absent from the archive (tarfile's "
         "copy-instead-of-link fallback is not modelled)",
-        "link chains stay far below the kernel limit of 40 / the model fuel of 96 steps",
+        "link chains (depth <= 4 plus random members) stay far below the kernel limit of 40 / the model fuel of 96 steps",
         "manifest sources: directories holding one file `f`, one regular file, or missing (link only)",
     ]
     ctx.trusted.append("C18: tarfile.extractall (fully_trusted filter of Python 3.12), shutil.copytree/copy/copyfile, "
@@ -653,6 +1063,12 @@ def run(ctx):
         cases += [gen_deploy_case(rng) for _ in range(n_dep)]
         cases += [gen_copylink_case(rng) for _ in range(n_cl)]
         run_cases(ctx, sb, cases)
+        ctx.extra["link_chain_family"] = {
+            "generated_chain_archives": sum(v for k, v in ctx.tags.items() if k.startswith("class:chain:")),
+            "members_placed_through_link_members": ctx.tags.get("family:member-placed-through-link-member", 0),
+            "accepted_by_textual_normalisation_and_escaping_when_unchecked":
+                ctx.tags.get("family:textually-confined-link-chain-escapes", 0),
+        }
     finally:
         shutil.rmtree(base, ignore_errors=True)
 
